@@ -36,6 +36,9 @@ MULTIPLETS = {
     "m1": [[0.0], [1.0]],
     "m2": [[-0.31, 0.27], [0.25, 0.75]],
     "m5": [[-0.701, -0.078, 0.144, 0.269, 1.482], [0.205, 0.562, 0.175, 0.029, 0.029]],
+    # the same five components listed in descending and in no particular order (the constructor does not ask for sorted tables)
+    "m5desc": [[1.482, 0.269, 0.144, -0.078, -0.701], [0.029, 0.029, 0.175, 0.562, 0.205]],
+    "m5mix": [[0.144, 1.482, -0.701, 0.269, -0.078], [0.175, 0.029, 0.205, 0.029, 0.562]],
 }
 PZT = {"abg1": (0.04, 0.5, 0.25), "abg2": (0.02, 0.0, 1.0)}
 # Zeeman structures: (wavelength offset from rest wavelength [nm], d wavelength / dB [nm/T], ratio at B=0, d ratio / dB)
@@ -63,7 +66,7 @@ PRIM_RATIOS = {"quick": [0.1, 0.5, 1.0, 2.0, 5.0, 16.0, 100.0], "thorough": [0.1
 PRIM_WIDTHS = {"quick": [0.3], "thorough": [0.3, 0.004]}
 
 ALPHABET = {
-    "model": ["GaussianLine", "MultipletLineShape x {1,2,5 components}", "ZeemanTriplet", "ParametrisedZeemanTriplet x 2 (alpha,beta,gamma)",
+    "model": ["GaussianLine", "MultipletLineShape x {1,2,5 components; ascending, descending and unordered tables}", "ZeemanTriplet", "ParametrisedZeemanTriplet x 2 (alpha,beta,gamma)",
               "ZeemanMultiplet x {1+1+1, 2+2+2, 3+3+3 components, unnormalised B-dependent ratios}",
               "StarkBroadenedLine x coefficients x (n_e,T_e)", "BeamEmissionMultiplet", "add_gaussian_line", "add_lorentzian_line"],
     "species temperature eV": TS, "element (mass, rest wavelength)": MASS, "bulk velocity m/s": VEL, "bulk velocity (StarkBroadenedLine)": "first three of the list", "B vector T": BFIELD,
@@ -100,7 +103,7 @@ REQUIRED_CLASSES = (
     + ["binw/fwhm=fine", "binw/fwhm=medium", "binw/fwhm=coarse", "stark:gauss", "stark:lorentz", "stark:voigt",
        "pol:no", "pol:pi", "pol:sigma", "B:0", "B:par", "B:perp", "B:oblique", "doppler:zero", "doppler:red", "doppler:blue", "doppler:across",
        "zero-width:Ts=neg", "zero-width:Ts=zero", "zero-width:beam-T=zero", "zero-width:width=neg", "zero-width:width=zero",
-       "radiance:0", "ratio-checked", "pi+sigma-checked", "adds-checked", "partial-window", "integrator-history", "stark-sequence"]
+       "radiance:0", "ratio-checked", "pi+sigma-checked", "adds-checked", "partial-window", "integrator-history", "stark-sequence", "evaluation-sequence"]
     + ["ratio-checked:%s" % m for m in ("MultipletLineShape", "ZeemanTriplet", "ParametrisedZeemanTriplet", "ZeemanMultiplet",
                                         "StarkBroadenedLine", "BeamEmissionMultiplet")]
 )
@@ -149,6 +152,14 @@ def cases(tier):
     for i, b in enumerate(bf[:2]):
         out.append({"model": "stark-sequence", "label": "StarkBroadenedLine", "b": list(b), "ts": ts[min(3, len(ts) - 1)], "el": mass[0], "vel": list(vel[0]),
                     "stark": list(STARK_COEFF[tier][0])})
+    # one set of models evaluated at points of different magnetic field, in every order
+    for m, variant in SEQ_MODELS:
+        c = {"model": "eval-sequence", "seq_model": m, "label": m, "ts": ts[min(3, len(ts) - 1)], "el": mass[0], "vel": list(vel[0])}
+        if variant:
+            c["variant"] = variant
+        if m == "StarkBroadenedLine":
+            c["stark"] = list(STARK_COEFF[tier][0])
+        out.append(c)
     # the per-bin integrator of the Lorentzian part has setters: every way of reaching one configuration must
     # integrate like an integrator constructed with it (engine-H style family inside this lattice check)
     finals = INTEGRATOR_FINALS[tier]
@@ -201,6 +212,56 @@ def _run_stark_sequence(case):
                     break
     return {"viol": viol[:3], "classes": ["stark-sequence"], "n": n, "outcome": ("stark-sequence", tuple(case["b"]), n, len(viol)),
             "transitions": n, "nontrivial": nontrivial}
+
+
+SEQ_B = [(0.0, 5.0, 0.0), (1.0, -0.5, 1.0)]
+SEQ_PTS = [(-0.4, 0.2, 0.1), (0.3, -0.2, 0.1)]     # x < 0: first field; x >= 0: second field
+SEQ_MODELS = [("GaussianLine", None), ("MultipletLineShape", "m5"), ("ZeemanTriplet", None), ("ParametrisedZeemanTriplet", "abg1"),
+              ("ZeemanMultiplet", "s111"), ("ZeemanMultiplet", "s222"), ("ZeemanMultiplet", "s333"), ("StarkBroadenedLine", None)]
+
+
+def _run_eval_sequence(case):
+    """ONE set of models (all polarisations of one model class, sharing whatever the class shares: Zeeman structure, integrator) in
+    a plasma whose magnetic field differs between two half-spaces.  Every sequence of three evaluations over (polarisation, point)
+    is executed on a newly built set; each spectrum must equal the one a newly built set in a *uniform* plasma of that field gives -
+    those are the models the lattice part compares with the closed forms."""
+    import numpy as np
+    from raysect.optical import Spectrum
+    base = {k: case[k] for k in ("ts", "el", "vel") if k in case}
+    base["model"] = case["seq_model"]
+    if case.get("variant"):
+        base["variant"] = case["variant"]
+    if case["seq_model"] == "StarkBroadenedLine":
+        base.update(stark=list(case["stark"]), ne=2e20, te=5.0)
+    d = (0.3, 0.5, -0.8)
+    ref, wl = {}, None
+    for k, b in enumerate(SEQ_B):
+        adders, p = _build(dict(base, b=list(b)))
+        wl = p["wl"]
+        for pol in adders:
+            ref[(pol, k)] = np.array(adders[pol](1.5, d, Spectrum(wl - 1.2, wl + 1.5, 54)).samples, dtype=float)
+    ops = sorted(ref)
+    distinct = {pol: not np.allclose(ref[(pol, 0)], ref[(pol, 1)], rtol=1e-9, atol=0) for pol, _ in ops}
+    viol, n, nontrivial = [], 0, []
+    L = 3 if len(ops) > 2 else 4
+    tol_r = 1e-12 if case["seq_model"] != "StarkBroadenedLine" else 1e-9
+    for seq in itertools.product(range(len(ops)), repeat=L):
+        adders, _ = _build(dict(base, b_by_side=[list(v) for v in SEQ_B]))
+        for step, oi in enumerate(seq):
+            pol, k = ops[oi]
+            n += 1
+            a = np.array(adders[pol](1.5, d, Spectrum(wl - 1.2, wl + 1.5, 54), at=SEQ_PTS[k]).samples, dtype=float)
+            b = ref[(pol, k)]
+            if step and distinct[pol]:
+                nontrivial.append(("eval-seq", case["seq_model"], case.get("variant"), seq[:step + 1]))
+            if not np.allclose(a, b, rtol=tol_r, atol=1e-15 * max(float(b.max()), 1e-300)):
+                if len(viol) < 3:
+                    viol.append({"sig": "C02:%s:evaluation-sequence:spectrum-depends-on-earlier-evaluations" % case["seq_model"],
+                                 "what": "evaluation %d of the sequence %s on one set of models (B = %s for x < 0, %s for x >= 0): pol=%s at %s differs from a new model in a uniform plasma of that field"
+                                         % (step + 1, [ops[j] for j in seq], SEQ_B[0], SEQ_B[1], pol, SEQ_PTS[k]), "expected": b[:10].tolist(), "observed": a[:10].tolist()})
+                break
+    return {"viol": viol, "classes": ["evaluation-sequence", "evaluation-sequence:" + case["seq_model"]], "n": n,
+            "outcome": ("eval-sequence", case["seq_model"], case.get("variant"), n, len(viol)), "transitions": n, "nontrivial": nontrivial}
 
 
 def _run_integrator_history(case):
@@ -428,7 +489,12 @@ def _build(case):
     _, charge, trans, wl = ELEMENTS[case["el"]]
     line = Line(el, charge, trans)
     plasma = Plasma(parent=None)
-    plasma.b_field = ConstantVector3D(Vector3D(*case.get("b", (0.0, 0.0, 0.0))))
+    if case.get("b_by_side"):
+        # two half-spaces with different fields: one set of models can then be evaluated at points of different B
+        bneg, bpos = (Vector3D(*v) for v in case["b_by_side"])
+        plasma.b_field = lambda x, y, z, bneg=bneg, bpos=bpos: (bneg if x < 0 else bpos)
+    else:
+        plasma.b_field = ConstantVector3D(Vector3D(*case.get("b", (0.0, 0.0, 0.0))))
     ne, te = case.get("ne", 1e19), case.get("te", 20.0)
     plasma.electron_distribution = Maxwellian(Constant3D(ne), Constant3D(te), ConstantVector3D(Vector3D(0, 0, 0)), 9.1093837015e-31)
     ad = AtomicData()
@@ -499,7 +565,7 @@ def _build(case):
     else:
         raise ValueError(model)
     keep = (plasma, sp)
-    return {pol: (lambda rad, d, s, m=m, keep=keep: m.add_line(rad, pt, Vector3D(*d), s)) for pol, m in models.items()}, p
+    return {pol: (lambda rad, d, s, m=m, keep=keep, at=None: m.add_line(rad, pt if at is None else Point3D(*at), Vector3D(*d), s)) for pol, m in models.items()}, p
 
 
 # ------------------------------------------------------------------------------------------------ the check
@@ -531,6 +597,8 @@ def run_case(case):
     tier = case.get("tier", "quick")
     if model == "integrator-history":
         return _run_integrator_history(case)
+    if model == "eval-sequence":
+        return _run_eval_sequence(case)
     if model == "stark-sequence":
         return _run_stark_sequence(case)
     adders, p = _build(case)
